@@ -150,6 +150,9 @@ pub fn run(cfg: &Cfg, rep: &mut Report) {
                 (cr.result, cr.buf)
             } else {
                 let mut resp: Vec<u8> = Vec::new();
+                // the interface's message-available flag (set or left over from an earlier call) must not
+                // change the framing
+                c.mav = rng.chance(1, 3);
                 let r = built.root().run(&plan.msg, &mut dev, &mut c, &mut resp);
                 (r, resp)
             };
